@@ -390,6 +390,15 @@ inline string normaliseReport(const string& err) {
       head = "ubsan:" + loc + ":" + w2;
       break;
     }
+    p = line.find("Assertion '");
+    if (p != string::npos && line.find("failed") != string::npos) {
+      // libstdc++ assertion: "<path>/stl_vector.h:1123: ... Assertion '__n < this->size()' failed."
+      string file = line.substr(0, line.find(':'));
+      size_t sl = file.find_last_of('/');
+      if (sl != string::npos) file = file.substr(sl + 1);
+      head = "assert:" + file;
+      break;
+    }
     p = line.find("LeakSanitizer");
     if (p != string::npos) { head = "lsan"; break; }
     p = line.find("terminate called");
